@@ -204,13 +204,28 @@ func (x *XmlNode) Find(start int, m meta.Definition) int {
 
 func (x *XmlNode) Choose(sel *node.Selection, choice *meta.Choice) (*meta.ChoiceCase, error) {
 	for _, c := range choice.Cases() {
-		for _, m := range c.DataDefinitions() {
-			if x.Find(0, m) >= 0 {
-				return c, nil
-			}
+		if x.hasAny(c.DataDefinitions()) {
+			return c, nil
 		}
 	}
 	return nil, nil
+}
+
+// hasAny looks for an element of one of the definitions, the cases of nested
+// choices included: their nodes are children of this element too
+func (x *XmlNode) hasAny(defs []meta.Definition) bool {
+	for _, m := range defs {
+		if nested, isChoice := m.(*meta.Choice); isChoice {
+			for _, c := range nested.Cases() {
+				if x.hasAny(c.DataDefinitions()) {
+					return true
+				}
+			}
+		} else if x.Find(0, m) >= 0 {
+			return true
+		}
+	}
+	return false
 }
 
 // Stubs non-reader funcs
